@@ -19,7 +19,7 @@ def code_id(q):
         f = hgm.identity
     else:
         f = hgm.mkq(q)
-    code = f.expr.__code__.co_code
+    code = f.expr.__code__.co_code if hasattr(f.expr, "__code__") else ("str", f.expr)
     if code not in _CODEIDS:
         _CODEIDS[code] = len(_CODEIDS) + 1
     return _CODEIDS[code]
@@ -167,8 +167,35 @@ def cop(op):
     raise ValueError(t)
 
 
+def csrc(sd, rec):
+    e = cexpr(sd["e"])
+    if sd["form"] == "str":
+        return "(SStr %s %s)" % (cstr(hgm.expr_rec(sd["e"], "names")), e)
+    f = hgm.mk_src(sd["form"], sd["e"], rec, sd.get("fname", "myfn"))
+    code = f.__code__.co_code
+    if code not in _CODEIDS:
+        _CODEIDS[code] = len(_CODEIDS) + 1
+    if sd["form"] == "def":
+        return "(SDef %s %d %s)" % (cstr(sd.get("fname", "myfn")), _CODEIDS[code], e)
+    return "(SLam %d %s)" % (_CODEIDS[code], e)
+
+
+def cwops(ws):
+    return clist("WSer" if w == "ser" else "WCached" if w == "cached" else "(WNamed %s)" % cstr(w[1]) for w in ws)
+
+
+def cfop(op):
+    if op[0] == "wrap":
+        _, sd, wops, ds, rec = op
+        return "FWrap %s %s %s" % (csrc(sd, rec), cwops(wops), clist(clist(cvalue(v) for v in d) for d in ds))
+    if op[0] == "feq":
+        _, sd1, w1, sd2, w2, rec = op
+        return "FEq %s %s %s %s" % (csrc(sd1, rec), cwops(w1), csrc(sd2, rec), cwops(w2))
+    return "FBase (%s)" % cop(op)
+
+
 HEADER = """From Coq Require Import ZArith List String.
-From Hgm Require Import NumOps F64 Xq Agg Ops Expr Build Snap Json Eq Run Forest RunId.
+From Hgm Require Import NumOps F64 Xq Agg Ops Expr Build Snap Json Eq Run Forest RunId Fcn RunFcn.
 Import ListNotations.
 Open Scope Z_scope. Open Scope string_scope.
 Set Printing Width 100000000. Set Printing Depth 100000000.
@@ -181,7 +208,8 @@ def ciop(op):
     return "IBase (%s)" % cop(op)
 
 
-MODE = {"base": ("op", cop, "run_hash", "run_at"), "id": ("iop", ciop, "runi_hash", "runi_at")}
+MODE = {"base": ("op", cop, "run_hash", "run_at"), "id": ("iop", ciop, "runi_hash", "runi_at"),
+        "fcn": ("fop", cfop, "runf_hash", "runf_at")}
 
 
 def program_def(name, ops, mode="base"):
